@@ -78,6 +78,12 @@ CLAIMED.update({
             "Trusted: the executor stub's fidelity to rayon's try_for_each contract (cross-checked by (c)); a failure replays from (case, scheduler seed, iteration count) because shuttle's seeded schedulers are deterministic."),
 })
 
+CLAIMED.update({
+    "C17": ("io+pt", "fault_enumeration",
+            "Objects of every storable kind (components, locomotives of each type, consists, locomotive / consist / set-speed / speed-limited simulations, networks, paths, defaults) are built by the generators of the other worlds, run for a seeded number of steps (mid-run, before the first braking step, after a refused step, after the run ended) and stored / reloaded through the simulated storage layer: yaml / json / bincode x string, reader (short reads, EINTR), file channels; faults at EVERY byte offset class (hard error, early EOF, torn prefix at a seeded set of offsets incl. first, last-1, inside a multi-byte scalar) must give an error, never a wrong object or panic. Oracles: reload succeeds; canonical rendering (maps sorted) equal; a second round trip changes nothing; and, for every kind that steps, EVERY step index of a short run is used as a crash point in every format and the resumed run must finish bit-identical with the uninterrupted twin.",
+            "Trusted: canonical rendering through the crate's own yaml serialiser (field-for-field, bit-exact floats); table of skippable fields used to recognise the open bincode finding. Three open findings (bincode + skipped fields, bincode + Location, JSON + non-finite floats)."),
+})
+
 NOT_YET = {
     "C02": "check not built yet (planned in world trk, DESIGN 4)",
     "C03": "check not built yet (planned in world trn, DESIGN 4)",
